@@ -359,10 +359,15 @@ def ecdhPrefix : Bytes := u16 "ECDH_P"
 def kdfAlgName : Bytes := u16 "SP800_108_CTR_HMAC"
 
 /-- `compute_kek` -/
-def computeKek (C : Crypto) (alg : Hash) (secretAlgorithm : Bytes) (privateKey publicKey : Bytes) : R Bytes := do
+def computeKek (C : Crypto) (alg : Hash) (secretAlgorithm secretParameters : Bytes) (privateKey publicKey : Bytes) : R Bytes := do
   let (shared, sh) ←
     (if secretAlgorithm = dhName then do
       let k ← ffcKeyUnpack publicKey
+      -- (fix D15) the peer's value must live in the root key's group and be neither 0, 1 nor p − 1
+      if secretParameters ≠ [] then do
+        let p ← ffcParamsUnpack secretParameters
+        if k.fieldOrder ≠ p.fieldOrder ∨ k.generator ≠ p.generator then throw .valueError
+      if ¬ (1 < k.publicKey ∧ k.publicKey < k.fieldOrder - 1) then throw .valueError
       -- pow(y, x, p): ValueError for p = 0
       if k.fieldOrder = 0 then throw .valueError
       let s := Py.powMod k.publicKey (Py.fromBE privateKey) k.fieldOrder
@@ -377,9 +382,9 @@ def computeKek (C : Crypto) (alg : Hash) (secretAlgorithm : Bytes) (privateKey p
   pure (C.kdf alg secret kdsServiceLabel kdsPublicKeyLabel 32)
 
 /-- `compute_kek_from_public_key` -/
-def computeKekFromPublicKey (C : Crypto) (alg : Hash) (seed secretAlgorithm publicKey : Bytes) (privateKeyLength : Nat) : R Bytes :=
+def computeKekFromPublicKey (C : Crypto) (alg : Hash) (seed secretAlgorithm secretParameters publicKey : Bytes) (privateKeyLength : Nat) : R Bytes :=
   let priv := C.kdf alg seed kdsServiceLabel (secretAlgorithm ++ [0, 0]) privateKeyLength
-  computeKek C alg secretAlgorithm priv publicKey
+  computeKek C alg secretAlgorithm secretParameters priv publicKey
 
 /-- `compute_public_key` -/
 def computePublicKey (C : Crypto) (secretAlgorithm privateKey peerPublicKey : Bytes) : R Bytes :=
@@ -404,7 +409,7 @@ def getKek (C : Crypto) (e : Envelope) (kid : KeyId) : R Bytes :=
     let alg ← hashOfName hn
     let l2Key ← computeL2 C alg kid.l1 kid.l2 e
     if kid.isPublicKey then
-      computeKekFromPublicKey C alg l2Key e.secretAlgorithm kid.keyInfo (Py.ceilDiv8 e.privateKeyLength)
+      computeKekFromPublicKey C alg l2Key e.secretAlgorithm e.secretParameters kid.keyInfo (Py.ceilDiv8 e.privateKeyLength)
     else
       pure (C.kdf alg l2Key kdsServiceLabel kid.keyInfo 32)
 
@@ -416,7 +421,7 @@ def newKek (C : Crypto) (e : Envelope) (rnd : Bytes) : R (Bytes × KeyId) :=
     let alg ← hashOfName hn
     let (kek, keyInfo) ←
       (if e.isPublicKey then do
-        let kek ← computeKek C alg e.secretAlgorithm rnd e.l2Key
+        let kek ← computeKek C alg e.secretAlgorithm e.secretParameters rnd e.l2Key
         let ki ← computePublicKey C e.secretAlgorithm rnd e.l2Key
         pure (kek, ki)
       else pure (C.kdf alg e.l2Key kdsServiceLabel rnd 32, rnd) : R (Bytes × Bytes))
